@@ -23,7 +23,7 @@ RULE = ("samples: {BaseSamples,Samples,SMCSamples} x {numpy,torch,jax} x {float3
         "{flat,nested} x N in {1,3} x parameter names stored in / not in lexicographic order; histories: FlowHistory, SMCHistory with 0..3 stored populations and populated/empty series; "
         "transforms: every class (Identity, Periodic, Logit, Probit, Affine, Composite x 6 option combinations, FlowTransform) "
         "fitted and unfitted x namespace; flows: ZukoFlow / FlowJax x {default, non-default kwargs} x {float32,float64} x "
-        "{untrained, trained}; Aspire configs: product over {parameters, prior_bounds, periodic, flow kwargs, xp, dtype, eps, "
+        "{untrained, trained} x {first save, second save of the same object, save of the reloaded object}, and a zuko flow built without any dtype under torch.set_default_dtype(float64) and reloaded under the stock default; Aspire configs: product over {parameters, prior_bounds, periodic, flow kwargs, xp, dtype, eps, "
         "bounded_transform} menus via save_config+save_flow -> resume_from_file; value menu for recursively_save_to_h5_file. "
         "Oracle: observational equality after reload. non-trivial = object with at least one optional field / fitted state / "
         "non-default setting")
@@ -241,6 +241,7 @@ def run_transforms(ns):
 
 def run_flows(arg):
     backend, kwargs_name, dt, trained = arg
+    import torch
     from aspire.flows import get_flow_wrapper
     from aspire.transforms import FlowTransform
 
@@ -248,6 +249,11 @@ def run_flows(arg):
     tmp = tempfile.mkdtemp(prefix="c13f_")
     case = {"part": "flow", "backend": backend, "kwargs": kwargs_name, "dtype": dt, "trained": trained}
     r.case(explorer.digest(case), nontrivial=True)
+    # dt == "default64": no dtype is given anywhere and the saving session runs with torch.set_default_dtype(float64)
+    default64 = dt == "default64"
+    if default64:
+        dt = None
+        torch.set_default_dtype(torch.float64)
     try:
         F, fxp = get_flow_wrapper(backend)
         if backend == "zuko":
@@ -270,25 +276,47 @@ def run_flows(arg):
                 flow.fit(x, max_epochs=2, batch_size=32, show_progress=False)
         else:
             flow.fit_data_transform(fxp.asarray(x, dtype=get_dtype("torch" if backend == "zuko" else "jax", dt)))
-        path = os.path.join(tmp, "f.h5")
-        with h5py.File(path, "w") as f:
-            flow.save(f, "flow")
-        with h5py.File(path, "r") as f:
-            back = F.load(f, "flow")
         probe = x[:8]
         lp0 = tonp(flow.log_prob(probe)).astype(np.float64)
-        lp1 = tonp(back.log_prob(probe)).astype(np.float64)
+        dt0 = str(tonp(flow.log_prob(probe)).dtype)
+        loaded = {}
+        # the first save, a second save of the same object (an object that has been saved before), and a save of the reloaded object
+        for stage, src in (("first-save", "flow"), ("second-save-of-the-same-object", "flow"), ("save-of-the-reloaded-object", "first-save")):
+            obj = flow if src == "flow" else loaded[src]
+            path = os.path.join(tmp, f"f_{len(loaded)}.h5")
+            with h5py.File(path, "w") as f:
+                obj.save(f, "flow")
+            if default64:
+                torch.set_default_dtype(torch.float32)  # the loading session has torch's stock default
+            with h5py.File(path, "r") as f:
+                loaded[stage] = F.load(f, "flow")
+            if default64:
+                torch.set_default_dtype(torch.float64)
     except Exception as e:
         from env import exc_site
 
         r.violation(f"C13/flow/{backend}/raises/{type(e).__name__}/{exc_site(e)}/kwargs={kwargs_name}", repr(e)[:300], case)
         shutil.rmtree(tmp, ignore_errors=True)
+        if default64:
+            torch.set_default_dtype(torch.float32)
         return r.dump()
-    tol = 1e-4 if dt == "float32" else 1e-9
-    if lp0.shape != lp1.shape or not np.allclose(lp0, lp1, rtol=tol, atol=tol):
-        r.violation(f"C13/flow/{backend}/density-changed/kwargs={kwargs_name}", {"saved": lp0.tolist(), "loaded": lp1.tolist()}, case)
-    if str(lp1.dtype) != str(lp0.dtype) or str(tonp(back.log_prob(probe)).dtype) != str(tonp(flow.log_prob(probe)).dtype):
-        r.violation(f"C13/flow/{backend}/dtype-changed", None, case)
+    tol = 1e-4 if dt0 == "float32" else 1e-9
+    for stage, back in loaded.items():
+        suffix = "" if stage == "first-save" else "/" + stage
+        try:
+            out = back.log_prob(probe)
+        except Exception as e:
+            from env import exc_site
+
+            r.violation(f"C13/flow/{backend}/loaded-flow-raises/{type(e).__name__}/{exc_site(e)}{suffix}", repr(e)[:300], dict(case, stage=stage))
+            continue
+        lp1 = tonp(out).astype(np.float64)
+        if lp0.shape != lp1.shape or not np.allclose(lp0, lp1, rtol=tol, atol=tol):
+            r.violation(f"C13/flow/{backend}/density-changed/kwargs={kwargs_name}{suffix}", {"saved": lp0.tolist(), "loaded": lp1.tolist()}, dict(case, stage=stage))
+        if str(tonp(out).dtype) != dt0:
+            r.violation(f"C13/flow/{backend}/dtype-changed{suffix}", {"saved": dt0, "loaded": str(tonp(out).dtype)}, dict(case, stage=stage))
+    if default64:
+        torch.set_default_dtype(torch.float32)
     shutil.rmtree(tmp, ignore_errors=True)
     r.sample(case)
     return r.dump()
@@ -469,6 +497,9 @@ def run(tier, seed, workers):
                     if tier == "quick" and backend == "flowjax" and (dt == "float32" or (kw == "custom" and not trained)):
                         continue
                     jobs.append(("run_flows", (backend, kw, dt, trained)))
+    # no explicit dtype anywhere, saving session with torch's default dtype set to float64, loading session with the stock default
+    jobs.append(("run_flows", ("zuko", "default", "default64", True)))
+    jobs.append(("run_flows", ("zuko", "custom", "default64", False)))
     cm = config_menu(tier)
     k = max(1, len(cm) // (workers * 2))
     jobs += [("run_configs", cm[i:i + k]) for i in range(0, len(cm), k)]
